@@ -11,7 +11,13 @@ import (
 //
 //	N1  a tagless switch without init statement, fallthrough or break becomes an if / else-if chain
 //	    (its default clause, wherever it stands, the final else);
-//	N2  `else { if c { … } [else …] }` becomes `else if c { … } [else …]`.
+//	N2  `else { if c { … } [else …] }` becomes `else if c { … } [else …]`;
+//	N3  when the LAST statement of a function body or of a block is `if c { …; return … } else { X }` (no init statement),
+//	    the else branch is spliced after the if: `if c { …; return … }; X` ("early return" form). Being last, X's
+//	    declarations cannot leak into later statements.
+//
+// (A fourth rule - `if x != y { return A }; return B` rewritten positive-condition-first - was tried and dropped: it changes
+// what five extractors see on the unchanged tree, and their shape vocabularies would all have to be restated.)
 //
 // Both are purely syntactic and semantics-preserving. Nothing else is touched.
 func normalizeFile(f *ast.File) {
@@ -22,6 +28,7 @@ func normalizeFile(f *ast.File) {
 		switch x := n.(type) {
 		case *ast.BlockStmt:
 			normalizeList(x.List)
+			x.List = earlyReturn(x.List)
 		case *ast.CaseClause:
 			normalizeList(x.Body)
 		case *ast.CommClause:
@@ -133,4 +140,45 @@ func normSkel(body string) string {
 	}
 	normalizeFile(f)
 	return exprString(f.Decls[0].(*ast.FuncDecl).Body)
+}
+
+// earlyReturn applies N3 to the last statement of a statement list, repeatedly (else-if chains unfold one by one).
+func earlyReturn(list []ast.Stmt) []ast.Stmt {
+	for len(list) > 0 {
+		ifs, ok := list[len(list)-1].(*ast.IfStmt)
+		if !ok || ifs.Init != nil || ifs.Else == nil || !terminates(ifs.Body) {
+			return list
+		}
+		els := ifs.Else
+		ifs.Else = nil
+		switch e := els.(type) {
+		case *ast.BlockStmt:
+			normalizeList(e.List)
+			list = append(list, e.List...)
+		case *ast.IfStmt:
+			list = append(list, e)
+		default:
+			ifs.Else = els
+			return list
+		}
+	}
+	return list
+}
+
+// terminates: the block's last statement is a return or a call of panic.
+func terminates(b *ast.BlockStmt) bool {
+	if b == nil || len(b.List) == 0 {
+		return false
+	}
+	switch x := b.List[len(b.List)-1].(type) {
+	case *ast.ReturnStmt:
+		return true
+	case *ast.ExprStmt:
+		if c, ok := x.X.(*ast.CallExpr); ok {
+			if id, ok := c.Fun.(*ast.Ident); ok && id.Name == "panic" {
+				return true
+			}
+		}
+	}
+	return false
 }
